@@ -211,6 +211,12 @@ impl GenericsAnalyzer {
         opts: &Opts,
     ) -> syn::Result<FnDeps> {
         if opts.no_deps_value() {
+            if let Some(receiver @ syn::FnArg::Receiver(_)) = input_sig.inputs.first() {
+                return Err(syn::Error::new(
+                    receiver.span(),
+                    "Function cannot have a self receiver",
+                ));
+            }
             return self.deps_with_generics(FnDeps::NoDeps, &input_sig.generics);
         }
 
